@@ -164,7 +164,16 @@ func (m *chipsMon) End(h *Hand, gs *pf.GameState) *vlib.Violation {
 // C12 — raise sizes obey the minimum-raise rule; amounts cannot corrupt chips
 // ---------------------------------------------------------------------------
 
-type raiseMon struct{}
+// raiseMon keeps its own book of "the size of the previous bet or raise of the
+// round (the big blind before any)": a bet sets it, a raise or all-in that lifts
+// the wager to match by at least that much replaces it, anything smaller (a short
+// all-in, a call) leaves it alone. The engine's own previous_raise_size field is
+// compared with the book, not trusted.
+type raiseMon struct {
+	street string
+	minR   int64 // minimum raise by the book
+	known  bool
+}
 
 func (m *raiseMon) Begin(h *Hand, gs *pf.GameState) *vlib.Violation { return nil }
 func (m *raiseMon) End(h *Hand, gs *pf.GameState) *vlib.Violation   { return nil }
@@ -189,25 +198,56 @@ func (m *raiseMon) Observe(h *Hand, t *Trans) *vlib.Violation {
 	if post.Status.CurrentRoundPot < 0 {
 		return vlib.V("C12", "negative-pot/"+sig, "after %s: round pot %d", t.Op, post.Status.CurrentRoundPot)
 	}
+	// a new betting round: the book starts at the big blind before the flop, at
+	// nothing afterwards (the first bet of the round sets it)
+	if t.Op.K == "ready" && t.Err == nil && post.Status.CurrentEvent == "RoundStarted" {
+		m.street, m.known = post.Status.Round, true
+		m.minR = 0
+		if m.street == "preflop" {
+			m.minR = h.Cfg.BB
+		}
+	}
 	if t.Op.K != "act" {
 		return nil
 	}
-	cw, prs := pre.Status.CurrentWager, pre.Status.PreviousRaiseSize
+	cw := pre.Status.CurrentWager
 	// the wager to match never goes down within a round
 	if post.Status.CurrentWager < cw {
 		return vlib.V("C12", "wager-decreased/"+sig, "%s: wager to match went from %d to %d", t.Op, cw, post.Status.CurrentWager)
 	}
+	cp := pre.Status.CurrentPlayer
+	bp, ap := pre.Players[cp], post.Players[cp]
+	inc := post.Status.CurrentWager - cw
+	book := m.minR
+	defer func() {
+		// keep the book
+		if t.Err != nil || !m.known || inc <= 0 {
+			return
+		}
+		switch {
+		case t.Op.A == "bet":
+			m.minR = inc
+		case t.Op.A == "raise" && t.Op.X == cw:
+			// Raise(level == wager to match) is carried out as a call; a call that
+			// is completed to one big blind lifts the wager but is no raise
+		case t.Op.A == "raise" || t.Op.A == "allin":
+			if inc >= m.minR {
+				m.minR = inc
+			}
+		}
+	}()
 	if t.Op.A != "raise" && t.Op.A != "bet" {
 		return nil
 	}
-	cp := pre.Status.CurrentPlayer
-	bp, ap := pre.Players[cp], post.Players[cp]
 	x := t.Op.X
 	cls := amtClass(t.Op, pre)
 	h.St.Class("request:" + t.Op.A + "(" + cls + ")")
-	if t.Op.A == "raise" && hasStr(bp.AllowedActions, "raise") {
+	if t.Op.A == "raise" && hasStr(bp.AllowedActions, "raise") && m.known {
 		d := func() string {
-			return fmt.Sprintf("%s [%s] err=%v | before: wager=%d stack0=%d cw=%d prs=%d | after: wager=%d stack=%d cw=%d prs=%d raiser=%d event=%s", t.Op, cls, t.Err, bp.Wager, bp.InitialStackSize, cw, prs, ap.Wager, ap.StackSize, post.Status.CurrentWager, post.Status.PreviousRaiseSize, post.Status.CurrentRaiser, post.Status.CurrentEvent)
+			return fmt.Sprintf("%s [%s] err=%v | minimum raise by the book %d | before: wager=%d stack0=%d cw=%d prs=%d | after: wager=%d stack=%d cw=%d prs=%d raiser=%d event=%s", t.Op, cls, t.Err, book, bp.Wager, bp.InitialStackSize, cw, pre.Status.PreviousRaiseSize, ap.Wager, ap.StackSize, post.Status.CurrentWager, post.Status.PreviousRaiseSize, post.Status.CurrentRaiser, post.Status.CurrentEvent)
+		}
+		if book != pre.Status.PreviousRaiseSize {
+			h.St.Class("book-differs-from-engine-field")
 		}
 		if x < cw || x == 0 {
 			if t.Err == nil || !t.Unchanged() {
@@ -215,7 +255,7 @@ func (m *raiseMon) Observe(h *Hand, t *Trans) *vlib.Violation {
 			}
 			return nil
 		}
-		if pre.Meta.Limit == "no" && x > cw && x < bp.InitialStackSize && x-cw >= prs {
+		if pre.Meta.Limit == "no" && x > cw && x < bp.InitialStackSize && x-cw >= book {
 			if t.Err != nil {
 				return vlib.V("C12", "legal-raise-refused/"+cls, "%s", d())
 			}
@@ -225,8 +265,7 @@ func (m *raiseMon) Observe(h *Hand, t *Trans) *vlib.Violation {
 			h.Facts["exact-raise"] = true
 		}
 		if x > cw && t.Err == nil {
-			inc := post.Status.CurrentWager - cw
-			if inc > 0 && inc < prs && ap.StackSize != 0 {
+			if inc > 0 && inc < book && ap.StackSize != 0 {
 				return vlib.V("C12", "undersized-raise/"+cls, "%s", d())
 			}
 		}
